@@ -192,14 +192,13 @@ class SVBackendImpl:
         """
         times = observable.evaluation_times
 
-        is_observable_eval_time = (
-            times is not None
-            and self._config.is_time_in_evaluation_times(t, times, tol=tolerance)
-        )
+        # The default evaluation times only apply to observables without their own:
+        # Pulser's own check in Observable.__call__ is too coarse (0.5 / duration)
+        # to reject a default time that is close to one of the observable's times.
+        if times is not None:
+            return self._config.is_time_in_evaluation_times(t, times, tol=tolerance)
 
-        is_default_eval_time = self._config.is_evaluation_time(t, tol=tolerance)
-
-        return is_observable_eval_time or is_default_eval_time
+        return self._config.is_evaluation_time(t, tol=tolerance)
 
     def _apply_observables(self, step_idx: int) -> None:
         norm_time = self.target_times[step_idx] / self.target_times[-1]
